@@ -62,7 +62,12 @@ def load_file(path: Path, contracts: dict[str, Contract], helpers: dict[str, ast
                 elif key == "loops":
                     assert isinstance(val, ast.Dict)
                     for k, v in zip(val.keys, val.values):
-                        c.loops[k.value] = {"inv": v}  # type: ignore[union-attr]
+                        c.loops.setdefault(k.value, {})["inv"] = v  # type: ignore[union-attr]
+                elif key == "variants":
+                    # termination measures of while loops: {ordinal: lambda ...: integer expression}
+                    assert isinstance(val, ast.Dict)
+                    for k, v in zip(val.keys, val.values):
+                        c.loops.setdefault(k.value, {})["variant"] = v  # type: ignore[union-attr]
                 elif key == "inline":
                     c.inline = list(ast.literal_eval(val))
                 elif key == "types":
